@@ -26,6 +26,7 @@ def main(argv):
 
     mod = importlib.import_module(f"symgs.props.{prop.lower()}")
     spec = mod.SPEC
+    os.environ.setdefault("VERIF_CROSS", "3" if tier == "thorough" else "0")  # cvc5 second opinions per job
     jobs = mod.jobs(tier, seed)
     known = core.load_known()
     records = []
@@ -187,6 +188,8 @@ def main(argv):
         "engine": spec.get("engine", "E1"),
         "job_meta": metas[:40],
         "solver": "z3 " + __import__("z3").get_version_string(),
+        "cross_check_cvc5": {k: sum(1 for r in records if r.get("cross_cvc5") == k) for k in ("unsat", "unknown", "sat")},
+        "cross_check_note": "second opinion of the cvc5 binary on the SMT-LIB text of discharged obligations (first VERIF_CROSS per job; 0 in the quick tier); 'unknown' = cvc5 undecided within 15 s, 'sat' would make the obligation inconclusive",
     }
     core.write_evidence(prop, tier, seed, spec.get("level", "model_checking"), coverage, spec.get("assumptions", []), wall, len(violations))
     # ---- report
